@@ -123,7 +123,7 @@ def grid(kind, n):
     raise KeyError(kind)
 
 
-GRIDS = [('A', n) for n in (4, 5, 6, 7, 8, 10, 12)] + [('B', 8)]
+GRIDS = [('A', n) for n in (4, 5, 6, 7, 8, 10, 12)] + [('B', n) for n in (4, 5, 6, 8, 10)]
 
 
 def lay1(g, code):
@@ -496,15 +496,15 @@ def _int_kwargs(P, td):
     return kw
 
 
-def _mk_int(P, td):
-    name = INT_FUNC[P] + ('_td' if td else '_c')
+def _mk_int(P, td, gk='A'):
+    name = INT_FUNC[P] + ('_td' if td else '_c') + ('' if gk == 'A' else '_' + gk)
 
     @reg(name, 'Integration.' + INT_FUNC[P], integrator=True)
     def mk(lay, xl):
         import dadi
         n = INT_N[P]
-        xx = lay1(grid('A', n), xl)
-        phi = layn(phi_fix(P, n), lay)
+        xx = lay1(grid(gk, n), xl)
+        phi = layn(phi_fix(P, n, gk), lay)
         f = getattr(dadi.Integration, INT_FUNC[P])
         T = {1: 0.01, 2: 0.01, 3: 0.01, 4: 0.008, 5: 0.006}[P]
         return {'phi': phi, 'xx': xx}, (lambda a: f(a['phi'], a['xx'], T, **_int_kwargs(P, td)))
@@ -513,6 +513,9 @@ def _mk_int(P, td):
 for _P in range(1, 6):
     _mk_int(_P, False)
     _mk_int(_P, True)
+    # the same time-dependent call on a second grid with the SAME number of points but other spacings (uniform):
+    # a compiled kernel must not remember anything grid-derived from an earlier call
+    _mk_int(_P, True, gk='B')
 
 
 @reg('two_pops_frozen', 'Integration.two_pops', integrator=True)
